@@ -168,7 +168,8 @@ def processLine (acc : Acc) (line : String) : Acc :=
               (!implOk && modelPost.dg != implPost.dg) then ["store"] else [])
         let tr : Spec.Tr := { gov := acc.gov, pre := acc.cur, op := op, ok := implOk, bd := bd, branch := implBranch, post := implPost }
         let viol := Spec.monitors.filterMap (fun (pid, name, f) => if f tr then none else some s!"{seq} V {pid} {name}")
-        let tag := s!"{kind}:{authClass acc.gov op.auth}/{if implOk then "ok" else "rej"}/{reason r.res}"
+        let why := if op.auth == acc.gov then reason r.res else "auth-" ++ authClass acc.gov op.auth
+        let tag := s!"{kind}/{if implOk then "ok" else "rej"}/{why}"
         let l :=
           if comps.isEmpty then s!"{seq} A {tag}"
           else s!"{seq} D {tag} comps={",".intercalate comps} model={if modelOk then "ok" else "rej:" ++ reason r.res} impl={implClass} " ++
